@@ -415,8 +415,9 @@ class FaithSpec:
 # ------------------------------------------------------------------ part 3
 def t_scrollback(task, ctx: Ctx):
     env.reset("utf-8")
-    _, w, h, kmax = task
-    for k in range(0, kmax + 1):
+    _, w, h, kmax = task[:4]
+    kmin = task[4] if len(task) > 4 else 0
+    for k in range(kmin, kmax + 1):
         wid = StubWidget()
         tc = TermCanvas(w, h, wid)
         lines = []
@@ -540,14 +541,19 @@ def run(tier, R):
     sizes = [(1, 1), (2, 2), (3, 2), (4, 3), (8, 3)]
     encs = ["utf-8"] if quick else ["utf-8", "iso-8859-1"]
     rs = RobustSpec(sizes if not quick else [(1, 1), (3, 2), (4, 3), (9, 3)], encs)
-    res1 = R.bfs(rs, depth=2 if quick else 3, max_states=None)
+    res1 = R.bfs(rs, depth=2, max_states=None)
+    res1b = None
+    if not quick:
+        # three tokens deep on one size only (depth 3 on every size and encoding is > 10^7 transitions and did not fit the budget)
+        res1b = R.bfs(RobustSpec([(3, 2)], ["utf-8"]), depth=3, max_states=400_000)
     fs = FaithSpec([(3, 2), (4, 3), (2, 4)], tier)
     res2 = R.bfs(fs, depth=4 if quick else 6, max_states=600000)
-    R.run_tasks(t_scrollback, [("sb", w, h, 12 if quick else 24) for (w, h) in ((3, 2), (4, 3), (2, 1), (5, 4))])
+    kmax = 12 if quick else 24
+    R.run_tasks(t_scrollback, [("sb", w, h, min(k0 + 3, kmax), k0) for (w, h) in ((3, 2), (4, 3), (2, 1), (5, 4)) for k0 in range(0, kmax + 1, 4)])
     ev = int(R.ctx.counts["evaluations"])
     cov = {
-        "states": res1["states"] + res2["states"],
-        "transitions": res1["transitions"] + res2["transitions"],
+        "states": res1["states"] + res2["states"] + (res1b["states"] if res1b else 0),
+        "transitions": res1["transitions"] + res2["transitions"] + (res1b["transitions"] if res1b else 0),
         "traces_validated_against_impl": res2["transitions"],
         "evaluations": ev,
         "distinct_nontrivial": len(R.ctx.sets.get("nontrivial", ())),
@@ -559,6 +565,7 @@ def run(tier, R):
         "k line feeds then every scroll_buffer amount. non-trivial = distinct reference screens reached in part 2 + scrolled views",
         "exhaustive": not res2["capped"],
         "bfs_levels_part1": res1["levels"],
+        "part1_depth3_on_3x2": None if res1b is None else {"states": res1b["states"], "transitions": res1b["transitions"], "levels": res1b["levels"], "capped": res1b["capped"]},
         "bfs_levels_part2": res2["levels"],
     }
     return {
